@@ -213,5 +213,11 @@ func (fs *FS) rename(oldname, newname string) error {
 		_ = hackpadfs.Remove(newMount, newSubPath)
 		return err
 	}
+	if newInfo, err := hackpadfs.Stat(newMount, newSubPath); err == nil && newInfo.Mode() != oldInfo.Mode() {
+		// the destination existed before: a renamed file keeps its own mode, not the replaced file's
+		if err := hackpadfs.Chmod(newMount, newSubPath, oldInfo.Mode()); err != nil {
+			return err
+		}
+	}
 	return hackpadfs.Remove(oldMount, oldSubPath)
 }
